@@ -10,15 +10,17 @@ bytes of every compressed read, read failures) and ALL interleavings of the atom
 (`prefetchBegin` = `readAndCache` up to the end of its critical section, `prefetchCommit` = its
 `w.Commit()`, `layerVerify` ∋ the critical section of `VerifyTOC`).
 
-FINDING reflected here.  `Cache(WithReader(sr))` (`layer.backgroundFetch`) walks the blob through
-`metadata.Reader.Clone(sr)`.  The memory metadata store's `Clone` re-parses the TOC from `sr` and
-nobody compares the digest of that TOC, so prefetched chunks are compared with digests of the
-adversary's choice (operation `prefetchBeginWith c reply dg`, `dg` arbitrary).  With that operation
-the statements about BYTES are false (`*_full_false` below, witness replayed on the implementation
-every run); they are proved for histories whose clone-based prefetches carried the TOC of the layer
-object (`FaithfulRun`: always so for the db metadata store and for `Cache()` without `WithReader`)
-and are therefore named `…_partial`.  The statements about the TOC DIGEST, the prefetch/verify
-handshake and the configuration hold at full strength, clone-based prefetches included.
+Statements about BYTES are phrased with `Pinned H parse D c b`: "`b` hashes to the digest that SOME
+TOC whose bytes hash to `D` records for chunk `c`".  `D` is all the trusted manifest pins; with an
+uninterpreted `H` this needs no collision assumption and covers `Cache(WithReader(sr))`
+(`layer.backgroundFetch`), whose walk goes over `metadata.Reader.Clone(sr)`: the memory store's clone
+re-parses the TOC from `sr`, and since a094525 `Cache` refuses it unless its digest equals the TOC
+digest of the layer object (operation `prefetchBeginClone c reply tb'`, `tb'` = the adversary's TOC
+bytes).  `reads_verified_same_toc` gives the form "matches the digest recorded in the TOC of THIS
+layer object" under the one hypothesis it needs: TOC bytes with the digest of the layer's TOC record
+the same chunk digests (SHA-256 collision-freeness on TOCs).  The behaviour before a094525 (no
+comparison) is the model variant `prefetchWith`; `clone_prefetch_serves_forged_bytes` is its
+counterexample and the scenario is a regression scenario of the harness.
 -/
 import SV.Lemmas.Verify
 
@@ -74,10 +76,10 @@ theorem layerVerify_requires_digest (cfg : Cfg) (tb : β) (ops : List (Op β δ)
   · rw [h] at hm; cases hm
   · exact hd
 
-/-- For every history (clone-based prefetches with a foreign TOC included): every entry in the
-chunk cache of a verified layer, and every prefetch writer still in flight, was COMPARED with a
-chunk digest before it was written (nothing enters unchecked). Whether that digest was the one of
-this layer's TOC is what `FaithfulRun` adds below. -/
+/-- For every history: every entry in the chunk cache of a verified layer, and every prefetch
+writer still in flight, was COMPARED with a chunk digest before it was written (nothing enters
+unchecked).  That the digest was one a TOC hashing to the layer's TOC digest records is
+`no_unverified_bytes_cached_for_verified_layer`. -/
 theorem verified_layer_cache_all_compared (cfg : Cfg) (tb : β) (ops : List (Op β δ))
     (hv : (reach H parse cfg tb ops).layerR = .verified) :
     (∀ ke ∈ (reach H parse cfg tb ops).cache, ke.2.ver = true) ∧
@@ -90,51 +92,67 @@ theorem verified_layer_cache_all_compared (cfg : Cfg) (tb : β) (ops : List (Op 
   | true => rfl
   | false => have := hi.pend p hp h; rw [hl] at this; cases this
 
-/-- Invariant, for every history whose clone-based prefetches carried the TOC of the layer object:
-a verified layer's chunk cache (and every prefetch writer still in flight) holds only entries that
-were compared with their recorded digest before insertion, and their bytes do match the digests
-recorded in the TOC of this layer object. -/
-theorem no_unverified_bytes_cached_for_verified_layer_partial (cfg : Cfg) (tb : β) (ops : List (Op β δ))
-    (hf : FaithfulRun H parse (init parse cfg tb) ops)
+/-- Invariant, for EVERY history: a verified layer's chunk cache (and every prefetch writer still in
+flight) holds only entries that were compared with a chunk digest before insertion, and their bytes
+are pinned by the TOC digest of the layer object. -/
+theorem no_unverified_bytes_cached_for_verified_layer (cfg : Cfg) (tb : β) (ops : List (Op β δ))
     (hv : (reach H parse cfg tb ops).layerR = .verified) :
-    (∀ ke ∈ (reach H parse cfg tb ops).cache,
-        ke.2.ver = true ∧ PiecesGood H (reach H parse cfg tb ops).toc ke.2.pieces) ∧
-    (∀ p ∈ (reach H parse cfg tb ops).pending,
-        p.2.ver = true ∧ PiecesGood H (reach H parse cfg tb ops).toc p.2.pieces) := by
-  have hi : Inv H (reach H parse cfg tb ops) := inv_run H parse ops (inv_init H parse cfg tb) hf
+    (∀ ke ∈ (reach H parse cfg tb ops).cache, ke.2.ver = true ∧
+        PiecesGood (Pinned H parse ((reach H parse cfg tb ops).tocActual H)) ke.2.pieces) ∧
+    (∀ p ∈ (reach H parse cfg tb ops).pending, p.2.ver = true ∧
+        PiecesGood (Pinned H parse ((reach H parse cfg tb ops).tocActual H)) p.2.pieces) := by
+  have hi : Inv H parse (reach H parse cfg tb ops) := inv_run H parse ops (inv_init H parse cfg tb)
   obtain ⟨h1, h2⟩ := verified_layer_cache_all_compared H parse cfg tb ops hv
   generalize reach H parse cfg tb ops = s at hv hi h1 h2 ⊢
   exact ⟨fun ke hke => ⟨h1 ke hke, hi.good ke hke (h1 ke hke)⟩,
          fun p hp => ⟨h2 p hp, hi.pgood p hp (h2 p hp)⟩⟩
 
-/-- After a successful mount with TOC digest `D` (history `ops1` before it is arbitrary), for every
-continuation `ops2` on the same layer object and every further operation `o`: whatever `o` returns
-as file data consists of chunks whose bytes hash to the digest the TOC records for that chunk; and
-that TOC is the one whose bytes hash to `D`.  Hypothesis `hf`: clone-based prefetches (before and
-after the mount) carried the TOC of the layer object. -/
-theorem reads_verified_partial (cfg : Cfg) (tb : β) (ops1 : List (Op β δ)) (l : Labels δ) (D : δ)
+/-- After a successful mount with TOC digest `D` (the history `ops1` before it is arbitrary), for
+every continuation `ops2` on the same layer object and every further operation `o`: whatever `o`
+returns as file data consists of chunks whose bytes hash to a chunk digest recorded by a TOC that
+hashes to `D`; and the TOC of the layer object hashes to `D`.  No hypothesis on the history. -/
+theorem reads_verified (cfg : Cfg) (tb : β) (ops1 : List (Op β δ)) (l : Labels δ) (D : δ)
     (ops2 : List (Op β δ)) (o : Op β δ) (ps : List (Nat × β))
     (hcfg : cfg.disableVerification = false) (hl : l.toc = some (some D))
     (hm : (step H parse (reach H parse cfg tb ops1) (.mount l)).2 = .ok)
     (hne : NoEvict ops2)
-    (hf : FaithfulRun H parse (init parse cfg tb) (ops1 ++ .mount l :: ops2))
     (ho : (step H parse (run H parse (step H parse (reach H parse cfg tb ops1) (.mount l)).1 ops2) o).2
             = .data ps) :
-    PiecesGood H (reach H parse cfg tb ops1).toc ps ∧ H (reach H parse cfg tb ops1).tocBytes = D := by
+    PiecesGood (Pinned H parse D) ps ∧ H (reach H parse cfg tb ops1).tocBytes = D := by
   obtain ⟨hd, hv⟩ := mount_requires_digest H parse cfg tb ops1 l D hcfg hl hm
-  obtain ⟨hf1, hf2⟩ := (faithfulRun_append H parse _ _ _).mp hf
-  have hi0 : Inv H (reach H parse cfg tb ops1) := inv_run H parse ops1 (inv_init H parse cfg tb) hf1
-  unfold reach at *
-  generalize run H parse (init parse cfg tb) ops1 = s at hm hd hv hi0 ho hf2 ⊢
-  have hi1 : Inv H (step H parse s (.mount l)).1 := inv_step H parse hi0 _ hf2.1
-  have hf1' : Frame s (step H parse s (.mount l)).1 := frame_step H parse s _ rfl
-  have hf3 := hf2.2
-  generalize (step H parse s (.mount l)).1 = s1 at hv hi1 hf1' ho hf3
-  have hi2 : Inv H (run H parse s1 ops2) := inv_run H parse ops2 hi1 hf3
+  have hi0 : Inv H parse (reach H parse cfg tb ops1) := inv_run H parse ops1 (inv_init H parse cfg tb)
+  generalize reach H parse cfg tb ops1 = s at hm hd hv hi0 ho ⊢
+  have hi1 : Inv H parse (step H parse s (.mount l)).1 := inv_step H parse hi0 _
+  have hf1 : Frame s (step H parse s (.mount l)).1 := frame_step H parse s _ rfl
+  generalize (step H parse s (.mount l)).1 = s1 at hv hi1 hf1 ho
+  have hi2 : Inv H parse (run H parse s1 ops2) := inv_run H parse ops2 hi1
   have hfr : Frame s1 (run H parse s1 ops2) := frame_run H parse ops2 s1 hne
   have hout := step_out H parse hi2 (hfr.verified hv) o ps ho
-  rw [hfr.toc, hf1'.toc] at hout
+  have hD : H (run H parse s1 ops2).tocBytes = D := by rw [hfr.tocBytes, hf1.tocBytes]; exact hd
+  unfold Pin at hout
+  rw [hD] at hout
   exact ⟨hout, hd⟩
+
+/-- The same with "the digest recorded in the TOC of THIS layer object".  The one hypothesis:
+TOC bytes that hash to the digest of the layer's TOC bytes record the same chunk digests
+(collision-freeness of SHA-256 on TOCs; trivially true for the db store, whose clone keeps the
+stored TOC, and whenever the blob source serves the TOC range unchanged). -/
+theorem reads_verified_same_toc (cfg : Cfg) (tb : β) (ops1 : List (Op β δ)) (l : Labels δ) (D : δ)
+    (ops2 : List (Op β δ)) (o : Op β δ) (ps : List (Nat × β))
+    (hcfg : cfg.disableVerification = false) (hl : l.toc = some (some D))
+    (hm : (step H parse (reach H parse cfg tb ops1) (.mount l)).2 = .ok)
+    (hne : NoEvict ops2)
+    (hinj : ∀ tb', H tb' = H (reach H parse cfg tb ops1).tocBytes →
+      (parse tb').dig = (reach H parse cfg tb ops1).toc.dig)
+    (ho : (step H parse (run H parse (step H parse (reach H parse cfg tb ops1) (.mount l)).1 ops2) o).2
+            = .data ps) :
+    PiecesGood (TocGood H (reach H parse cfg tb ops1).toc) ps := by
+  obtain ⟨h1, h2⟩ := reads_verified H parse cfg tb ops1 l D ops2 o ps hcfg hl hm hne ho
+  intro p hp
+  obtain ⟨tb', ht, hdg⟩ := h1 p hp
+  have := hinj tb' (by rw [ht, h2])
+  unfold TocGood
+  rw [← this]; exact hdg
 
 /-- The prefetch / `VerifyTOC` race, all schedules.  A prefetched chunk that fails verification
 (wrong bytes or no usable digest) and reaches its critical section
@@ -215,18 +233,17 @@ theorem unverified_requires_config (cfg : Cfg) (tb : β) (ops : List (Op β δ))
       | true => exact ⟨rfl, rfl⟩
 
 /-- With both switches off, and the layer API reached only through the filesystem (mount, store
-lookup, prefetch, reads, passthrough, eviction — no bare `SkipVerify`), EVERY byte any operation ever
-returns is digest-correct with respect to the TOC of the layer object that served it, and that
-layer object is `verified` — for all histories whose clone-based prefetches carried the TOC of the
-layer object, with no assumption on which mounts succeeded. -/
-theorem strict_config_reads_verified_partial (cfg : Cfg) (tb : β) (ops : List (Op β δ)) (o : Op β δ)
+lookup, prefetch, background fetch, reads, passthrough, eviction — no bare `SkipVerify`), EVERY byte
+any operation ever returns is pinned by the TOC digest of the layer object that served it, and that
+layer object is `verified` — for all histories, with no assumption on which mounts succeeded. -/
+theorem strict_config_reads_verified (cfg : Cfg) (tb : β) (ops : List (Op β δ)) (o : Op β δ)
     (ps : List (Nat × β))
     (hd : cfg.disableVerification = false) (ha : cfg.allowNoVerification = false)
     (hns : ∀ o' ∈ ops, o'.isLayerSkip = false)
-    (hf : FaithfulRun H parse (init parse cfg tb) ops)
     (ho : (step H parse (reach H parse cfg tb ops) o).2 = .data ps) :
-    PiecesGood H (reach H parse cfg tb ops).toc ps ∧ (reach H parse cfg tb ops).layerR = .verified := by
-  have hi : Inv H (reach H parse cfg tb ops) := inv_run H parse ops (inv_init H parse cfg tb) hf
+    PiecesGood (Pinned H parse ((reach H parse cfg tb ops).tocActual H)) ps ∧
+      (reach H parse cfg tb ops).layerR = .verified := by
+  have hi : Inv H parse (reach H parse cfg tb ops) := inv_run H parse ops (inv_init H parse cfg tb)
   have hnsk : (reach H parse cfg tb ops).layerR ≠ .skipped :=
     strict_run H parse ops (init parse cfg tb) hd ha hns (by simp [init])
   generalize reach H parse cfg tb ops = s at hi hnsk ho ⊢
@@ -325,105 +342,26 @@ theorem layerVerify_rejects_the_counterexamples :
     (layerVerify id (read id (layerSkip exInit) exBadRead).1 1).2 = .err := by
   refine ⟨rfl, rfl, rfl⟩
 
-/-! ## the statements about bytes at full strength, and why they are false for the current code
+/-! ## `Cache(WithReader)` before a094525 (variant `prefetchWith` with an unchecked digest)
 
 The memory metadata store's `Clone` re-parses the TOC from the section reader handed to
-`Cache(WithReader(sr))` (`layer.backgroundFetch`) and nobody compares its digest: operation
-`prefetchBeginWith c reply dg` with `dg` of the adversary's choice. -/
+`Cache(WithReader(sr))` (`layer.backgroundFetch`); nobody compared its digest. -/
 
-/-- The witness: the layer is verified with the right digest (`1`); the background fetch then walks
-a blob whose chunk 0 has bytes `5` and whose (re-parsed, unverified) TOC pins digest `5` for it. -/
-def exCloneOps : List (Op Nat Nat) := [.prefetchBeginWith 0 (some 5) (some 5), .prefetchCommit 0]
-
-/-- On the current code a VERIFIED layer serves, from its chunk cache, bytes that do not match the
-digest its TOC records: mount with the right digest, clone-based prefetch of a forged chunk with a
-forged TOC, read. -/
+/-- On the old code a VERIFIED layer serves, from its chunk cache, bytes no TOC hashing to the
+verified digest pins: verify with the right digest (`1`), clone-based prefetch of chunk 0 with forged
+bytes `5` against a forged TOC that records `5`, read.  The current operation refuses that clone
+(its TOC bytes `2` hash to `2 ≠ 1`) and changes nothing. -/
 theorem clone_prefetch_serves_forged_bytes :
-    let l : Labels Nat := ⟨some (some 1), false⟩
-    let s1 := (step id (fun _ => exToc) (reach id (fun _ => exToc) {} 1 []) (.mount l)).1
-    let s2 := run id (fun _ => exToc) s1 exCloneOps
-    (step id (fun _ => exToc) (reach id (fun _ => exToc) {} 1 []) (.mount l)).2 = .ok ∧
-    s2.layerR = .verified ∧
-    (step id (fun _ => exToc) s2 (.read [{ c := 0, reply := none }])).2 = .data [(0, 5)] ∧
-    s2.toc.dig 0 = some 7 := by
-  refine ⟨rfl, rfl, rfl, rfl⟩
-
-/-- `reads_verified` without the hypothesis on clone-based prefetches. -/
-def reads_verified_full : Prop :=
-  ∀ (β δ : Type) [DecidableEq δ] (H : β → δ) (parse : β → Toc δ) (cfg : Cfg) (tb : β)
-    (ops1 : List (Op β δ)) (l : Labels δ) (D : δ) (ops2 : List (Op β δ)) (o : Op β δ)
-    (ps : List (Nat × β)),
-    cfg.disableVerification = false → l.toc = some (some D) →
-    (step H parse (reach H parse cfg tb ops1) (.mount l)).2 = .ok → NoEvict ops2 →
-    (step H parse (run H parse (step H parse (reach H parse cfg tb ops1) (.mount l)).1 ops2) o).2
-      = .data ps →
-    PiecesGood H (reach H parse cfg tb ops1).toc ps
-
-theorem reads_verified_full_false : ¬ reads_verified_full := by
-  intro h
-  have ht : (reach id (fun _ => exToc) {} 1 []).toc = exToc := rfl
-  have h1 := h Nat Nat id (fun _ => exToc) {} 1 [] ⟨some (some 1), false⟩ 1 exCloneOps
-    (.read [{ c := 0, reply := none }]) [(0, 5)] rfl rfl rfl
-    (by
-      intro o ho
-      simp only [exCloneOps, List.mem_cons, List.not_mem_nil, or_false] at ho
-      rcases ho with rfl | rfl <;> rfl)
-    rfl
-  have h2 := h1 (0, 5) (List.mem_cons_self ..)
-  rw [ht] at h2
-  exact absurd h2 (by decide)
-
-/-- `no_unverified_bytes_cached_for_verified_layer` without that hypothesis. -/
-def no_unverified_bytes_cached_for_verified_layer_full : Prop :=
-  ∀ (β δ : Type) [DecidableEq δ] (H : β → δ) (parse : β → Toc δ) (cfg : Cfg) (tb : β)
-    (ops : List (Op β δ)),
-    (reach H parse cfg tb ops).layerR = .verified →
-    ∀ ke ∈ (reach H parse cfg tb ops).cache,
-      ke.2.ver = true ∧ PiecesGood H (reach H parse cfg tb ops).toc ke.2.pieces
-
-theorem no_unverified_bytes_cached_for_verified_layer_full_false :
-    ¬ no_unverified_bytes_cached_for_verified_layer_full := by
-  intro h
-  have hc : (reach id (fun _ => exToc) {} 1 (.layerVerify 1 :: exCloneOps)).cache
-      = [(.chunk 0, ⟨[(0, 5)], true⟩)] := rfl
-  have ht : (reach id (fun _ => exToc) {} 1 (.layerVerify 1 :: exCloneOps)).toc = exToc := rfl
-  have h1 := h Nat Nat id (fun _ => exToc) {} 1 (.layerVerify 1 :: exCloneOps) rfl
-    (.chunk 0, ⟨[(0, 5)], true⟩) (by rw [hc]; exact List.mem_cons_self ..)
-  have h2 := h1.2 (0, 5) (List.mem_cons_self ..)
-  rw [ht] at h2
-  exact absurd h2 (by decide)
-
-/-- `strict_config_reads_verified` without that hypothesis. -/
-def strict_config_reads_verified_full : Prop :=
-  ∀ (β δ : Type) [DecidableEq δ] (H : β → δ) (parse : β → Toc δ) (cfg : Cfg) (tb : β)
-    (ops : List (Op β δ)) (o : Op β δ) (ps : List (Nat × β)),
-    cfg.disableVerification = false → cfg.allowNoVerification = false →
-    (∀ o' ∈ ops, o'.isLayerSkip = false) →
-    (step H parse (reach H parse cfg tb ops) o).2 = .data ps →
-    PiecesGood H (reach H parse cfg tb ops).toc ps
-
-theorem strict_config_reads_verified_full_false : ¬ strict_config_reads_verified_full := by
-  intro h
-  have ht : (reach id (fun _ => exToc) {} 1 (.mount ⟨some (some 1), false⟩ :: exCloneOps)).toc = exToc := rfl
-  have h1 := h Nat Nat id (fun _ => exToc) {} 1 (.mount ⟨some (some 1), false⟩ :: exCloneOps)
-    (.read [{ c := 0, reply := none }]) [(0, 5)] rfl rfl
-    (by
-      intro o ho
-      simp only [exCloneOps, List.mem_cons, List.not_mem_nil, or_false] at ho
-      rcases ho with rfl | rfl | rfl <;> rfl)
-    rfl
-  have h2 := h1 (0, 5) (List.mem_cons_self ..)
-  rw [ht] at h2
-  exact absurd h2 (by decide)
-
-/-- The partial theorems are not vacuous where it matters: a clone that carries the TOC of the layer
-object (db store; memory store with an unchanged TOC range) rejects the forged chunk after the
-decision and never commits it. -/
-example :
-    let s1 := (step id (fun _ => exToc) (reach id (fun _ => exToc) {} 1 []) (.layerVerify 1)).1
-    FaithfulRun id (fun _ => exToc) s1 [.prefetchBeginWith 0 (some 5) (some 7)] ∧
-    step id (fun _ => exToc) s1 (.prefetchBeginWith 0 (some 5) (some 7)) = (s1, .err) := by
-  refine ⟨⟨rfl, trivial⟩, rfl⟩
+    let s1 := (layerVerify id (init (fun _ => exToc) {} 1) 1).1
+    let s2 := (prefetchWith id s1 0 (some 5) (some 5)).1
+    (layerVerify id (init (fun _ => exToc) {} 1) 1).2 = .ok ∧ s2.layerR = .verified ∧
+    (read id s2 [{ c := 0, reply := none }]).2 = .data [(0, 5)] ∧
+    ¬ Pinned id (fun _ => exToc) (s2.tocActual id) 0 5 ∧
+    step id (fun _ => exToc) s1 (.prefetchBeginClone 0 (some 5) 2) = (s1, .err) := by
+  refine ⟨rfl, rfl, rfl, ?_, rfl⟩
+  rintro ⟨tb, _, h⟩
+  have h' : exToc.dig 0 = some (id 5) := h
+  exact absurd h' (by decide)
 
 /-! ## non-vacuity -/
 
@@ -448,6 +386,12 @@ example :
     (step id (fun _ => exToc) (step id (fun _ => exToc) s0 (.layerVerify 1)).1
         (.prefetchBegin 0 (some 5))).2 = .err := by
   refine ⟨rfl, rfl, rfl, rfl, rfl⟩
+
+/-- Background fetch through a clone with the same TOC bytes is accepted and verified as usual. -/
+example :
+    let s1 := (layerVerify id (init (fun _ => exToc) {} 1) 1).1
+    (step id (fun _ => exToc) s1 (.prefetchBeginClone 1 (some 7) 1)).2 = .ok ∧
+    (step id (fun _ => exToc) s1 (.prefetchBeginClone 1 (some 5) 1)).2 = .err := ⟨rfl, rfl⟩
 
 /-- `unverified_requires_config`: a mount without digest does succeed under the switch. -/
 example : (step id (fun _ => exToc) (reach id (fun _ => exToc) exCfg 1 []) (.mount ⟨none, true⟩)).2 = .ok := rfl
